@@ -423,6 +423,7 @@ fn run_once(sets: &[InputSet], c: &Case, spelling: u64, expected: &Expected) -> 
         // clock and pid follow the entropy choice: two cases differ in them, the two runs of one case do not
         clock_base: if c.entropy == 0 { 0 } else { 1_000_000_000 + c.entropy % 3_000_000_000 },
         pid: if c.entropy == 0 { 0 } else { 2 + c.entropy % 4_000_000 },
+        extra_env: if c.entropy == 0 { vec![] } else { vec![("USER".into(), format!("user{}", c.entropy % 97)), ("HOME".into(), format!("/home/u{}", c.entropy % 89)), ("LANG".into(), ["C", "de_DE.UTF-8"][(c.entropy % 2) as usize].into())] },
         tmpdir: Some(match c.tmpdir {
             1 => out_abs.parent().map_or_else(|| top.clone(), Path::to_path_buf),
             2 => PathBuf::from("."),
